@@ -2,6 +2,8 @@ package rel
 
 import (
 	"sort"
+
+	"github.com/go-errors/errors"
 )
 
 // Rank ...
@@ -11,7 +13,10 @@ func Rank(s Set, rankerf func(v Tuple) (Tuple, error)) (Set, error) {
 	}
 	entries := []rankerEntry{}
 	for e := s.Enumerator(); e.MoveNext(); {
-		input := e.Current().(Tuple)
+		input, is := e.Current().(Tuple)
+		if !is {
+			return nil, errors.Errorf("'rank' lhs must be a set of tuples, not %s", ValueTypeAsString(e.Current()))
+		}
 		rankers, err := rankerf(input)
 		if err != nil {
 			return nil, err
